@@ -296,6 +296,16 @@ func genField(r *detsim.Rand, i int, annotate bool) Field {
 		if r.Chance(1, 6) {
 			f.Inject = []KV{{"valid", "required"}, {"json", "same_name"}, {"form", "same"}}[:2+r.Intn(2)]
 		}
+		// legal Go (only vet objects): the existing literal carries one key TWICE - left behind by an older, appending version of
+		// some tool, or written by hand - and the second occurrence is exactly what the comment asks for, next to an item that
+		// is not there yet (seeded C07t dropped "already present" items before merging and wrote every key once)
+		if r.Chance(1, 10) {
+			d := f.Inject[r.Intn(len(f.Inject))]
+			f.Tags = append(f.Tags, KV{d.K, injectVals[r.Intn(len(injectVals))]}, d)
+			if len(f.Inject) == 1 {
+				f.Inject = append(f.Inject, KV{"yaml", lower})
+			}
+		}
 	}
 	return f
 }
